@@ -4,16 +4,25 @@ import PyIpmi.Gen.Tables
 namespace PyIpmi.Model.Api
 open PyIpmi PyIpmi.Codec PyIpmi.Spec.Bmc PyIpmi.Gen.Tables
 
-def api_get_sensor_reading (num lun : Nat) : Exchange :=
+/-- `states = rsp.states1 | rsp.states2 << 8` over the optional state bytes -/
+def statesOf (v : List Val) : Option Nat :=
+  match optIntAt v 3, optIntAt v 4 with
+  | some a, some b => some (a ||| b * 256)
+  | some a, none => some a
+  | none, _ => none
+
+/-- get_sensor_reading; `shipped`: while `rsp.config.initial_update_in_progress` (reading/state unavailable) is
+set only the reading is withheld and `states` is still built from the state bytes; INTENDED (fixes/C07-10):
+`(None, None)` -/
+def getSensorReading (shipped : Bool) (num lun : Nat) : Exchange :=
   { req := reqGetSensorReading, rsp := rspGetSensorReading, lun := lun,
     vals := .ok (setInt (fresh reqGetSensorReading) 0 num),
     post := fun v =>
-      let reading := if bitAt v 2 1 != 0 then none else some (intAt v 1)
-      let states := match optIntAt v 3, optIntAt v 4 with
-        | some a, some b => some (a ||| b * 256)
-        | some a, none => some a
-        | none, _ => none
-      .ok (.optNatPair reading states) }
+      if bitAt v 2 1 != 0 then .ok (.optNatPair none (if shipped then statesOf v else none))
+      else .ok (.optNatPair (some (intAt v 1)) (statesOf v)) }
+
+def api_get_sensor_reading := getSensorReading false
+def api_get_sensor_reading_shipped := getSensorReading true
 
 /-- the `if <name> is not None:` blocks of set_sensor_thresholds, in source order -/
 def setThr (r : List Val) (vals : List (Option Nat)) (i : Nat) : List Val :=
